@@ -1,6 +1,8 @@
 package verifharness
 
 import (
+	"net/http/httptrace"
+	"net/textproto"
 	neturl "net/url"
 	"context"
 	"errors"
@@ -24,8 +26,9 @@ func init() {
 // scriptedRT is an in-memory http.RoundTripper installed as a backend's transport: it reports
 // which backend was hit and blocks until the harness releases the request with an outcome.
 type rtOutcome struct {
-	kind   string // status | err | abort
-	status int
+	kind    string // status | err | abort
+	status  int
+	interim bool // a 103 Early Hints goes out before the final status
 }
 
 type rtCall struct {
@@ -68,6 +71,11 @@ func (s *scriptedRT) RoundTrip(r *http.Request) (*http.Response, error) {
 		return &http.Response{StatusCode: 200, Status: "200 OK", Proto: "HTTP/1.1", ProtoMajor: 1, ProtoMinor: 1,
 			Header: http.Header{"Content-Type": {"text/plain"}}, Body: &failingBody{}, ContentLength: -1, Request: r}, nil
 	}
+	if out.interim { // what net/http's transport does on a 1xx: it tells the caller through the client trace of the request
+		if tr := httptrace.ContextClientTrace(r.Context()); tr != nil && tr.Got1xxResponse != nil {
+			tr.Got1xxResponse(103, textproto.MIMEHeader{"Link": {"</s.css>; rel=preload"}})
+		}
+	}
 	body := fmt.Sprintf("backend %s status %d", s.backend.Name, out.status)
 	if out.status == 204 || out.status == 304 {
 		body = ""
@@ -99,7 +107,7 @@ type serveResult struct {
 func serveAsync(h http.Handler, r *http.Request) chan serveResult {
 	done := make(chan serveResult, 1)
 	go func() {
-		rec := httptest.NewRecorder()
+		rec := &finalRecorder{ResponseRecorder: httptest.NewRecorder()}
 		var res serveResult
 		defer func() {
 			if p := recover(); p != nil {
@@ -113,6 +121,17 @@ func serveAsync(h http.Handler, r *http.Request) chan serveResult {
 	}()
 	return done
 }
+
+// finalRecorder: a client sees interim (1xx) responses go by and takes the final status
+type finalRecorder struct{ *httptest.ResponseRecorder }
+
+func (f *finalRecorder) WriteHeader(code int) {
+	if code >= 100 && code < 200 && code != 101 {
+		return
+	}
+	f.ResponseRecorder.WriteHeader(code)
+}
+func (f *finalRecorder) Flush() { f.ResponseRecorder.Flush() }
 
 var _ = sync.Mutex{}
 
